@@ -241,6 +241,7 @@ fn value_palette() -> Vec<Value> {
     vec![
         Value::from(-7), Value::from(1), Value::from(99999), Value::from(-70000), Value::Integer(Integer::try_from(1i128 << 63).unwrap()),
         Value::Text("a/b".into()), Value::Text("ab".into()), Value::Text(" a/b".into()), Value::Text("a/b/c".into()), Value::Text("".into()),
+        Value::Text("a/".into()), Value::Text("/b".into()), Value::Text("/".into()), Value::Text("a/b ".into()), Value::Text("é/ü".into()),
         Value::Bytes(vec![]), Value::Bytes(vec![1, 2]), Value::Array(vec![]), Value::Array(vec![Value::from(1)]), Value::Array(vec![Value::Text("x".into())]),
         Value::Array(vec![Value::from(8)]), sig.clone(), Value::Array(vec![sig.clone(), sig.clone()]), Value::Array(vec![sig.clone(), Value::from(1)]),
         Value::Array(vec![Value::Bytes(vec![0xa0, 0x00]), Value::Map(vec![]), Value::Bytes(vec![])]),
@@ -443,6 +444,27 @@ pub fn probe_order() -> i32 {
         if a.cmp_canonical(b) != lf { if report("C16,C20", format!("Label::cmp_canonical({:?}, {:?}) = {:?}, length-first order of encodings {:?}", a, b, a.cmp_canonical(b), lf)) { return 1; } }
         if (a.cmp(b) == std::cmp::Ordering::Equal) != (a == b) { if report("C16,C20", format!("Label::cmp({:?}, {:?}) Equal inconsistent with ==", a, b)) { return 1; } }
     } }
+    // RegisteredLabel / RegisteredLabelWithPrivate: same order as the labels they denote (integers before text, by encoding)
+    {
+        use coset::{RegisteredLabel, RegisteredLabelWithPrivate};
+        let mut regs: Vec<(RegisteredLabelWithPrivate<iana::Algorithm>, Label)> = vec![];
+        for i in [i64::MIN, i64::MIN + 1, -5_000_000_000, -(1i64 << 32) - 1, -(1i64 << 31) - 1, -(1i64 << 31), -70000, -65537] { regs.push((RegisteredLabelWithPrivate::PrivateUse(i), Label::Int(i))); }
+        for a in [iana::Algorithm::ES256, iana::Algorithm::A128GCM, iana::Algorithm::RS1, iana::Algorithm::EdDSA, iana::Algorithm::HMAC_256_256, iana::Algorithm::A256GCM] {
+            regs.push((RegisteredLabelWithPrivate::Assigned(a), Label::Int(a as i64))); }
+        for t in ["", "a", "b", "aa", "é", "zz"] { regs.push((RegisteredLabelWithPrivate::Text(t.into()), Label::Text(t.into()))); }
+        for (ra, la) in &regs { for (rb, lb) in &regs {
+            n += 1;
+            if ra.cmp(rb) != la.cmp(lb) { if report("C16", format!("RegisteredLabelWithPrivate::cmp({:?}, {:?}) = {:?}, the labels they denote compare {:?}", ra, rb, ra.cmp(rb), la.cmp(lb))) { return 1; } }
+            if (ra.cmp(rb) == std::cmp::Ordering::Equal) != (ra == rb) { if report("C16", format!("RegisteredLabelWithPrivate::cmp({:?}, {:?}) Equal inconsistent with ==", ra, rb)) { return 1; } }
+        } }
+        let mut regs2: Vec<(RegisteredLabel<iana::HeaderParameter>, Label)> = vec![];
+        for h in [iana::HeaderParameter::Alg, iana::HeaderParameter::Crit, iana::HeaderParameter::X5Chain, iana::HeaderParameter::CounterSignature] { regs2.push((RegisteredLabel::Assigned(h), Label::Int(h as i64))); }
+        for t in ["", "a", "aa", "é", "zz"] { regs2.push((RegisteredLabel::Text(t.into()), Label::Text(t.into()))); }
+        for (ra, la) in &regs2 { for (rb, lb) in &regs2 {
+            n += 1;
+            if ra.cmp(rb) != la.cmp(lb) { if report("C16", format!("RegisteredLabel::cmp({:?}, {:?}) = {:?}, the labels they denote compare {:?}", ra, rb, ra.cmp(rb), la.cmp(lb))) { return 1; } }
+        } }
+    }
     // canonicalize: every rotation of a palette of extra labels (no label 0: known finding), both orderings
     let extras: Vec<Label> = vec![Label::Int(-1), Label::Int(24), Label::Int(-24), Label::Int(-25), Label::Int(6), Label::Int(255), Label::Int(-256), Label::Int(256), Label::Int(-257),
                                   Label::Text("".into()), Label::Text("k".into()), Label::Int(65536), Label::Int(-65536), Label::Int(-65537)];
@@ -511,7 +533,8 @@ pub fn probe_keys() -> i32 {
         let want = key_ref(&v);
         let got = CoseKey::from_cbor_value(v.clone());
         let mut b = vec![]; ciborium::ser::into_writer(&v, &mut b).unwrap();
-        if got.is_ok() != want { if report("C10", format!("COSE_Key {}: crate {} it, RFC 8152 7 says {}", hex(&b), if got.is_ok() { "accepts" } else { "rejects" }, if want { "accept" } else { "reject" })) { return 1; } }
+        let dupk = (0..m.len()).any(|a| (0..a).any(|b2| m[a].0 == m[b2].0));
+        if got.is_ok() != want { if report(if dupk { "C10,C12" } else { "C10" }, format!("COSE_Key {}: crate {} it, RFC 8152 7 says {}", hex(&b), if got.is_ok() { "accepts" } else { "rejects" }, if want { "accept" } else { "reject" })) { return 1; } }
         if let Ok(k) = got {
             let get = |x: i64| m.iter().find(|(kk, _)| matches!(label_ref(kk), Some(Ok(y)) if y == x)).map(|(_, v)| v.clone());
             let bb = |x: i64| match get(x) { Some(Value::Bytes(b)) => b, _ => vec![] };
@@ -538,6 +561,27 @@ pub fn probe_keys() -> i32 {
         if r.is_ok() != want || matches!(r.map(|s| s.0.len() == arr.len()), Ok(false)) { if report("C10", format!("COSE_KeySet of {} elements: wrong verdict or length", arr.len())) { return 1; } }
     }
     if CoseKeySet::from_cbor_value(good.clone()).is_ok() { if report("C10", format!("COSE_KeySet accepts a map")) { return 1; } }
+    // the array helpers (trusted in the proofs): element order is kept in both directions, the FIRST bad element decides the error
+    {
+        let k = |kty: i64, kid: u8| Value::Map(vec![(Value::from(1), Value::from(kty)), (Value::from(2), Value::Bytes(vec![kid]))]);
+        let arr = vec![k(4, 1), k(2, 2), k(1, 3), k(4, 4)];
+        n += 1;
+        match CoseKeySet::from_cbor_value(Value::Array(arr.clone())) {
+            Ok(ks) => {
+                let ids: Vec<Vec<u8>> = ks.0.iter().map(|x| x.key_id.clone()).collect();
+                if ids != vec![vec![1u8], vec![2], vec![3], vec![4]] { if report("C10,C09,C07", format!("COSE_KeySet elements decoded out of order: {:?}", ids)) { return 1; } }
+                if ks.to_cbor_value().ok() != Some(Value::Array(arr.clone())) { if report("C10,C11,C07", format!("COSE_KeySet does not encode back to the same array (order / content)")) { return 1; } }
+            }
+            Err(e) => { if report("C10", format!("COSE_KeySet of four good keys rejected: {:?}", e)) { return 1; } }
+        }
+        let dup = Value::Map(vec![(Value::from(1), Value::from(4)), (Value::from(1), Value::from(4))]);
+        for (a2, first_is_dup) in [(vec![dup.clone(), Value::Null], true), (vec![Value::Null, dup.clone()], false)] {
+            n += 1;
+            let r = CoseKeySet::from_cbor_value(Value::Array(a2));
+            let ok = match (&r, first_is_dup) { (Err(CoseError::DuplicateMapKey), true) => true, (Err(CoseError::UnexpectedItem(_, _)), false) => true, _ => false };
+            if !ok { if report("C10,C12", format!("COSE_KeySet with two bad elements: error {:?} is not that of the first bad element", r.err())) { return 1; } }
+        }
+    }
     println!("probe keys: {} cases, no disagreement", n);
     0
 }
@@ -580,7 +624,8 @@ pub fn probe_claims() -> i32 {
         let want = claims_ref(&v);
         let got = cwt::ClaimsSet::from_cbor_value(v.clone());
         let mut b = vec![]; ciborium::ser::into_writer(&v, &mut b).unwrap();
-        if got.is_ok() != want { if report("C18", format!("CWT claims set {}: crate {} it, RFC 8392 says {}", hex(&b), if got.is_ok() { "accepts" } else { "rejects" }, if want { "accept" } else { "reject" })) { return 1; } }
+        let dupk = (0..m.len()).any(|a| (0..a).any(|b2| m[a].0 == m[b2].0));
+        if got.is_ok() != want { if report(if dupk { "C18,C12" } else { "C18" }, format!("CWT claims set {}: crate {} it, RFC 8392 says {}", hex(&b), if got.is_ok() { "accepts" } else { "rejects" }, if want { "accept" } else { "reject" })) { return 1; } }
         if let Ok(c) = got {
             let get = |x: i64| m.iter().find(|(kk, _)| matches!(kk, Value::Integer(i) if i128_of(i) == x as i128)).map(|(_, v)| v.clone());
             let t = |o: &Option<String>| o.clone().map(Value::Text);
@@ -690,7 +735,10 @@ pub fn probe_roundtrip() -> i32 {
     let prot_wires: Vec<Vec<u8>> = vec![vec![], vec![0xa0], vec![0xbf, 0xff], vec![0xa1, 0x18, 0x01, 0x26], vec![0xa2, 0x04, 0x41, 0x01, 0x01, 0x26],
         vec![0xa1, 0x18, 0x63, 0xfb, 0x7f, 0xf8, 0, 0, 0, 0, 0, 0], vec![0xa1, 0x18, 0x63, 0xfa, 0x7f, 0xc0, 0, 0], vec![0xa1, 0x18, 0x63, 0xf9, 0x3e, 0x00],
         vec![0xa1, 0x07, 0x83, 0x43, 0xa1, 0x01, 0x26, 0xa0, 0x41, 0x07], vec![0xa2, 0x63, b'a', b'b', b'c', 0x01, 0x39, 0x01, 0x00, 0x9f, 0x01, 0xff]];
-    let unprot: Vec<Vec<u8>> = vec![vec![0xa0], vec![0xa1, 0x04, 0x41, 0x0b], vec![0xa1, 0x07, 0x82, 0x83, 0x40, 0xa0, 0x40, 0x83, 0x41, 0xa0, 0xa1, 0x05, 0x41, 0x01, 0x41, 0x02]];
+    let unprot: Vec<Vec<u8>> = vec![vec![0xa0], vec![0xa1, 0x04, 0x41, 0x0b],
+        // every typed field at once plus extras with label 0, 8, negative, large and text labels
+        vec![0xa9, 0x01, 0x26, 0x02, 0x81, 0x04, 0x03, 0x18, 0x3c, 0x04, 0x41, 0x01, 0x05, 0x41, 0x02, 0x00, 0x01, 0x08, 0xf6, 0x38, 0x63, 0x20, 0x61, b'z', 0x1a, 0x00, 0x01, 0x00, 0x00],
+        vec![0xa2, 0x06, 0x42, 0x01, 0x02, 0x03, 0x63, b'a', b'/', b'b'], vec![0xa1, 0x00, 0xa1, 0x00, 0x80], vec![0xa2, 0x19, 0x01, 0x00, 0x01, 0x18, 0x21, 0x81, 0x41, 0x00], vec![0xa1, 0x07, 0x82, 0x83, 0x40, 0xa0, 0x40, 0x83, 0x41, 0xa0, 0xa1, 0x05, 0x41, 0x01, 0x41, 0x02]];
     macro_rules! fixed_point { ($t:ty, $bytes:expr, $name:expr) => {'fp: {
         n += 1;
         let b: Vec<u8> = $bytes;
@@ -717,7 +765,7 @@ pub fn probe_roundtrip() -> i32 {
         let mut e0 = vec![0x83]; e0.extend(bstr(p)); e0.extend(u); e0.extend([0x41, 0x02]);
         fixed_point!(CoseEncrypt0, e0, "COSE_Encrypt0");
         let mut sig = vec![0x83]; sig.extend(bstr(p)); sig.extend(u); sig.extend([0x41, 0x09]);
-        let mut sg = vec![0x84]; sg.extend(bstr(p)); sg.extend(u); sg.extend([0xf6, 0x82]); sg.extend(&sig); sg.extend(&sig);
+        let mut sg = vec![0x84]; sg.extend(bstr(p)); sg.extend(u); sg.extend([0xf6, 0x82]); sg.extend(&sig); { let mut sig2 = sig.clone(); let l = sig2.len(); sig2[l - 1] = 0x0a; sg.extend(&sig2); }
         fixed_point!(CoseSign, sg, "COSE_Sign");
         let mut rc = vec![0x84]; rc.extend(bstr(p)); rc.extend(u); rc.extend([0x40, 0x81, 0x83]); rc.extend(bstr(p)); rc.extend([0xa0, 0xf6]);
         fixed_point!(CoseRecipient, rc.clone(), "COSE_recipient");
